@@ -8,6 +8,8 @@ package rockredis
 
 //@ property C12
 
+// identity of a stored key (what the engine and the write batch distinguish keys by)
+//@ spec kid(key []byte) int
 //@ spec be16(b []byte, p int) int = int(b[p])*256 + int(b[p+1])
 //@ spec eqAt(dst []byte, p int, src []byte) bool = (forall i int :: p <= i && i < p+len(src) ==> dst[i] == src[i-p]) && (forall j int :: 0 <= j && j < len(src) ==> dst[p+j] == src[j])
 
@@ -158,9 +160,11 @@ package rockredis
 //@   requires smallTK(table, key)
 //@   ensures isCollStop(result, SetType, table, key) && fresh(result)
 
+//@ spec zmKid(table []byte, key []byte, member []byte) int
 //@ func zEncodeSetKey(table []byte, key []byte, member []byte) []byte
 //@   requires smallTK(table, key)
 //@   ensures isCollKey(result, ZSetType, table, key, member) && fresh(result)
+//@   defines kid(result) == zmKid(table, key, member)
 //@ func zDecodeSetKey(ek []byte) ([]byte, []byte, []byte, error)
 //@   requires collDecodeSafe(ek)
 //@   ensures result3 == nil ==> isCollKey(ek, ZSetType, result0, result1, result2)
@@ -420,21 +424,31 @@ package rockredis
 //@ noeffect (*github.com/youzan/ZanRedisDB/rockredis.RockDB).fixListKey (*github.com/youzan/ZanRedisDB/metric.CollSizeHeap).Update
 
 // write batch: ghost(wbputs, wb) / ghost(wbdels, wb) count buffered puts / deletes
+// the batch as an overlay: bst(wb, ver, k) is what batch wb in its version ver holds for key identity k
+// (0 nothing, 1 put, 2 delete; the last operation on a key wins); ghost(wbver, wb) is the current version
+//@ spec bst(wb engine.WriteBatch, ver int, k int) int
 //@ interface (github.com/youzan/ZanRedisDB/engine.WriteBatch).Put func(wb engine.WriteBatch, key []byte, value []byte)
 //@   ensures ghost(wbputs, wb) == old(ghost(wbputs, wb)) + 1
-//@   modifies ghost(wbputs, wb)
+//@   ensures ghost(wbver, wb) == old(ghost(wbver, wb)) + 1 && bst(wb, ghost(wbver, wb), kid(key)) == 1
+//@   ensures forall j int :: j != kid(key) ==> bst(wb, ghost(wbver, wb), j) == bst(wb, old(ghost(wbver, wb)), j)
+//@   modifies ghost(wbputs, wb), ghost(wbver, wb)
 //@ interface (github.com/youzan/ZanRedisDB/engine.WriteBatch).Delete func(wb engine.WriteBatch, key []byte)
 //@   ensures ghost(wbdels, wb) == old(ghost(wbdels, wb)) + 1
-//@   modifies ghost(wbdels, wb)
+//@   ensures ghost(wbver, wb) == old(ghost(wbver, wb)) + 1 && bst(wb, ghost(wbver, wb), kid(key)) == 2
+//@   ensures forall j int :: j != kid(key) ==> bst(wb, ghost(wbver, wb), j) == bst(wb, old(ghost(wbver, wb)), j)
+//@   modifies ghost(wbdels, wb), ghost(wbver, wb)
 //@ interface (github.com/youzan/ZanRedisDB/engine.WriteBatch).DeleteRange func(wb engine.WriteBatch, start []byte, end []byte)
-//@   ensures ghost(wbdels, wb) >= old(ghost(wbdels, wb))
-//@   modifies ghost(wbdels, wb)
+//@   ensures ghost(wbdels, wb) >= old(ghost(wbdels, wb)) && ghost(wbver, wb) == old(ghost(wbver, wb)) + 1
+//@   modifies ghost(wbdels, wb), ghost(wbver, wb)
 //@ interface (github.com/youzan/ZanRedisDB/engine.WriteBatch).Merge func(wb engine.WriteBatch, key []byte, value []byte)
 //@   ensures ghost(wbputs, wb) == old(ghost(wbputs, wb)) + 1
-//@   modifies ghost(wbputs, wb)
+//@   ensures ghost(wbver, wb) == old(ghost(wbver, wb)) + 1 && bst(wb, ghost(wbver, wb), kid(key)) == 3
+//@   ensures forall j int :: j != kid(key) ==> bst(wb, ghost(wbver, wb), j) == bst(wb, old(ghost(wbver, wb)), j)
+//@   modifies ghost(wbputs, wb), ghost(wbver, wb)
 //@ interface (github.com/youzan/ZanRedisDB/engine.WriteBatch).Clear func(wb engine.WriteBatch)
-//@   ensures ghost(wbputs, wb) == 0 && ghost(wbdels, wb) == 0
-//@   modifies ghost(wbputs, wb), ghost(wbdels, wb)
+//@   ensures ghost(wbputs, wb) == 0 && ghost(wbdels, wb) == 0 && ghost(wbver, wb) == old(ghost(wbver, wb)) + 1
+//@   ensures forall j int :: bst(wb, ghost(wbver, wb), j) == 0
+//@   modifies ghost(wbputs, wb), ghost(wbdels, wb), ghost(wbver, wb)
 
 //@ func encodeListMeta(oldh *headerMetaValue, headSeq int64, tailSeq int64, ts int64) []byte
 //@   trusted byte layout of the list meta value
@@ -452,7 +466,7 @@ package rockredis
 //@   ghostset ghost(lmhead, db) := headSeq
 //@   ghostset ghost(lmtail, db) := tailSeq
 //@   ghostset ghost(lmsets, db) := old(ghost(lmsets, db)) + 1
-//@   modifies ghost(wbputs, wb), ghost(wbdels, wb), ghost(lmhead, db), ghost(lmtail, db), ghost(lmsets, db)
+//@   modifies ghost(wbputs, wb), ghost(wbdels, wb), ghost(lmhead, db), ghost(lmtail, db), ghost(lmsets, db), ghost(wbver, wb)
 
 // the stored list meta as read at the start of a command: ghost(curhead/curlen, db); an existing list has
 // 1 <= len and head/tail inside the sequence window (store invariant maintained by lpush/lSetMeta, assumed here)
@@ -464,7 +478,7 @@ package rockredis
 //@ func (db *RockDB) lDelete(ts int64, key []byte, wb engine.WriteBatch) int64
 //@   trusted deletes every element and the meta key of the list
 //@   ensures ghost(ldeletes, db) == old(ghost(ldeletes, db)) + 1
-//@   modifies ghost(ldeletes, db), ghost(wbputs, wb), ghost(wbdels, wb)
+//@   modifies ghost(ldeletes, db), ghost(wbputs, wb), ghost(wbdels, wb), ghost(wbver, wb)
 // ghost(commits, e) counts engine writes; ghost(cputs/cdels, e) are the batch counters handed to the last write
 //@ interface (github.com/youzan/ZanRedisDB/engine.KVEngine).Write func(e engine.KVEngine, wb engine.WriteBatch) error
 //@   ensures result != errTooMuchBatchSize
@@ -498,7 +512,7 @@ package rockredis
 //@   ensures result == nil && ghost(curexists, db) == 1 ==> ghost(commits, db.rockEng) == old(ghost(commits, db.rockEng)) + 1
 //@   ensures ghost(wbputs, db.wb) == 0 && ghost(wbdels, db.wb) == 0
 //@   ensures ghost(curexists, db) == 1 && 1 <= len(key) && len(key) <= MaxKeySize && result != nil ==> ghost(commits, db.rockEng) == old(ghost(commits, db.rockEng)) + 1
-//@   modifies ghost(wbputs, _), ghost(wbdels, _), ghost(lmhead, db), ghost(lmtail, db), ghost(lmsets, db), ghost(ldeletes, db), ghost(commits, _), ghost(cputs, _), ghost(cdels, _), ghost(tblcnt, db), ghost(expdels, _)
+//@   modifies ghost(wbputs, _), ghost(wbdels, _), ghost(lmhead, db), ghost(lmtail, db), ghost(lmsets, db), ghost(ldeletes, db), ghost(commits, _), ghost(cputs, _), ghost(cdels, _), ghost(tblcnt, db), ghost(expdels, _), ghost(wbver, _)
 //@   loop 1
 //@   invariant 0 <= i && i <= start
 //@   loop 2
@@ -524,7 +538,7 @@ package rockredis
 //@   requires r != nil && r.wb != nil
 //@   ensures ghost(commits, r.rockEng) == old(ghost(commits, r.rockEng)) + 1 && ghost(cputs, r.rockEng) == old(ghost(wbputs, r.wb)) && ghost(cdels, r.rockEng) == old(ghost(wbdels, r.wb))
 //@   ensures ghost(wbputs, r.wb) == 0 && ghost(wbdels, r.wb) == 0
-//@   modifies r.isBatching, ghost(commits, r.rockEng), ghost(cputs, r.rockEng), ghost(cdels, r.rockEng), ghost(wbputs, r.wb), ghost(wbdels, r.wb)
+//@   modifies r.isBatching, ghost(commits, r.rockEng), ghost(cputs, r.rockEng), ghost(cdels, r.rockEng), ghost(wbputs, r.wb), ghost(wbdels, r.wb), ghost(wbver, r.wb)
 
 // the live length of the stored string: an expired value is dead (C10), an absent one is empty
 //@ spec kvLive(db *RockDB) int = ite(ghost(kvexpired, db) == 1, 0, ghost(kvlen, db))
@@ -540,7 +554,7 @@ package rockredis
 //@   ensures len(value) == 0 ==> result0 == kvLive(db)
 //@   ensures offset < 0 && len(value) > 0 ==> result1 != nil
 //@   ensures ghost(wbputs, db.wb) == 0 && ghost(wbdels, db.wb) == 0
-//@   modifies db.isBatching, ghost(commits, _), ghost(cputs, _), ghost(cdels, _), ghost(wbputs, _), ghost(wbdels, _), ghost(tblcnt, db)
+//@   modifies db.isBatching, ghost(commits, _), ghost(cputs, _), ghost(cdels, _), ghost(wbputs, _), ghost(wbdels, _), ghost(tblcnt, db), ghost(wbver, _)
 
 // APPEND key value: the reply is the new length = live old length + len(value)
 //@ func (db *RockDB) Append(ts int64, rawKey []byte, value []byte) (int64, error)
@@ -550,7 +564,7 @@ package rockredis
 //@   ensures len(value) == 0 ==> result1 == nil && ghost(commits, db.rockEng) == old(ghost(commits, db.rockEng))
 //@   ensures len(value) == 0 ==> result0 == kvLive(db)
 //@   ensures ghost(wbputs, db.wb) == 0 && ghost(wbdels, db.wb) == 0
-//@   modifies db.isBatching, ghost(commits, _), ghost(cputs, _), ghost(cdels, _), ghost(wbputs, _), ghost(wbdels, _), ghost(tblcnt, db)
+//@   modifies db.isBatching, ghost(commits, _), ghost(cputs, _), ghost(cdels, _), ghost(wbputs, _), ghost(wbdels, _), ghost(tblcnt, db), ghost(wbver, _)
 
 // GETRANGE normalisation (Redis): negative indexes count from the end, then both are clamped into [0, len-1]
 //@ func getRange(start int64, end int64, valLen int64) (int64, int64)
@@ -617,11 +631,11 @@ package rockredis
 //@   trusted secondary index maintenance: buffers index entries only
 //@   ensures ghost(wbputs, wb) >= old(ghost(wbputs, wb)) && ghost(wbdels, wb) >= old(ghost(wbdels, wb))
 //@   ensures result != errTooMuchBatchSize
-//@   modifies ghost(wbputs, wb), ghost(wbdels, wb)
+//@   modifies ghost(wbputs, wb), ghost(wbdels, wb), ghost(wbver, wb)
 //@ func (self *HsetIndex) RemoveRec(value []byte, pk []byte, wb engine.WriteBatch)
 //@   trusted secondary index maintenance: buffers index entries only
 //@   ensures ghost(wbputs, wb) >= old(ghost(wbputs, wb)) && ghost(wbdels, wb) >= old(ghost(wbdels, wb))
-//@   modifies ghost(wbputs, wb), ghost(wbdels, wb)
+//@   modifies ghost(wbputs, wb), ghost(wbdels, wb), ghost(wbver, wb)
 //@ noeffect (*github.com/youzan/ZanRedisDB/rockredis.TableIndexContainer).Lock (*github.com/youzan/ZanRedisDB/rockredis.TableIndexContainer).Unlock github.com/youzan/ZanRedisDB/slow.LogLargeCollection github.com/youzan/ZanRedisDB/slow.NewSlowLogInfo (github.com/prometheus/client_golang/prometheus.Observer).Observe (*github.com/prometheus/client_golang/prometheus.HistogramVec).With
 
 //@ func (r *RockDB) MaybeCommitBatch() error
@@ -629,7 +643,7 @@ package rockredis
 //@   ensures result != errTooMuchBatchSize
 //@   ensures r.isBatching == 1 ==> result == nil && ghost(wbputs, r.wb) == old(ghost(wbputs, r.wb)) && ghost(wbdels, r.wb) == old(ghost(wbdels, r.wb)) && ghost(commits, r.rockEng) == old(ghost(commits, r.rockEng))
 //@   ensures r.isBatching != 1 ==> ghost(commits, r.rockEng) == old(ghost(commits, r.rockEng)) + 1 && ghost(cputs, r.rockEng) == old(ghost(wbputs, r.wb)) && ghost(cdels, r.rockEng) == old(ghost(wbdels, r.wb)) && ghost(wbputs, r.wb) == 0 && ghost(wbdels, r.wb) == 0
-//@   modifies ghost(commits, r.rockEng), ghost(cputs, r.rockEng), ghost(cdels, r.rockEng), ghost(wbputs, r.wb), ghost(wbdels, r.wb)
+//@   modifies ghost(commits, r.rockEng), ghost(cputs, r.rockEng), ghost(cdels, r.rockEng), ghost(wbputs, r.wb), ghost(wbdels, r.wb), ghost(wbver, r.wb)
 
 // the stored size moves by exactly delta (never below 0); size 0 removes the size key, so a collection
 // exists iff it has at least one element. ghost(sizedelta, db) / ghost(newsize, db) record the last update
@@ -644,7 +658,7 @@ package rockredis
 //@   ensures result1 != nil ==> ghost(wbputs, wb) == old(ghost(wbputs, wb)) && ghost(wbdels, wb) == old(ghost(wbdels, wb))
 //@   ghostset ghost(sizedelta, db) := delta
 //@   ghostset ghost(newsize, db) := result0
-//@   modifies oldh.UserData, ghost(wbputs, wb), ghost(wbdels, wb), ghost(sizedelta, db), ghost(newsize, db)
+//@   modifies oldh.UserData, ghost(wbputs, wb), ghost(wbdels, wb), ghost(sizedelta, db), ghost(newsize, db), ghost(wbver, wb)
 
 // HMSET: the hash size grows by exactly the number of fields the store did not have; every field is buffered
 // once; the only error that leaves the shared batch untouched is the argument-count limit
@@ -654,7 +668,7 @@ package rockredis
 //@   ensures result == nil && len(args) > 0 ==> ghost(newsize, db) >= ghost(sizedelta, db)
 //@   ensures result == errTooMuchBatchSize || len(args) == 0 ==> ghost(wbputs, db.wb) == old(ghost(wbputs, db.wb)) && ghost(wbdels, db.wb) == old(ghost(wbdels, db.wb)) && ghost(commits, db.rockEng) == old(ghost(commits, db.rockEng))
 //@   ensures len(args) > MAX_BATCH_NUM ==> result == errTooMuchBatchSize
-//@   modifies ghost(wbputs, _), ghost(wbdels, _), ghost(commits, _), ghost(cputs, _), ghost(cdels, _), ghost(misses, db), ghost(hits, db), ghost(sizedelta, db), ghost(newsize, db), ghost(tblcnt, db), alloftype(headerMetaValue)
+//@   modifies ghost(wbputs, _), ghost(wbdels, _), ghost(commits, _), ghost(cputs, _), ghost(cdels, _), ghost(misses, db), ghost(hits, db), ghost(sizedelta, db), ghost(newsize, db), ghost(tblcnt, db), alloftype(headerMetaValue), ghost(wbver, _)
 //@   loop 1
 //@   invariant 0 <= i && i <= len(args) && num == ghost(misses, db) - old(ghost(misses, db)) && num >= 0 && num <= i && err == nil && (value == nil || (fresh(value) && disjoint(value, keyInfo.OldHeader.UserData)))
 //@   invariant (len(keyInfo.OldHeader.UserData) == 0 || len(keyInfo.OldHeader.UserData) == 8) && storedSize(keyInfo.OldHeader.UserData) >= 0 && storedSize(keyInfo.OldHeader.UserData) < 4611686018427387904
@@ -662,12 +676,12 @@ package rockredis
 //@ func (db *RockDB) prepareCollKeyForWrite(ts int64, dt byte, key []byte, field []byte) (collVerKeyInfo, error)
 //@   trusted reads the collection meta through the engine; an expired or absent collection starts a new generation with no meta
 //@   ensures result1 == nil ==> result0.OldHeader != nil && (result0.OldHeader.Ver == 0 || result0.OldHeader.Ver == 1) && smallTK(result0.Table, result0.VerKey)
-//@   ensures result1 == nil && dt == SetType ==> (len(result0.OldHeader.UserData) == 0 || len(result0.OldHeader.UserData) >= 8) && setSize(result0.OldHeader.UserData) >= 0 && setSize(result0.OldHeader.UserData) < 4611686018427387904
+//@   ensures result1 == nil && (dt == SetType || dt == ZSetType) ==> (len(result0.OldHeader.UserData) == 0 || len(result0.OldHeader.UserData) >= 8) && setSize(result0.OldHeader.UserData) >= 0 && setSize(result0.OldHeader.UserData) < 4611686018427387904
 //@   ensures result1 != errTooMuchBatchSize
 //@ func (db *RockDB) GetCollVersionKey(ts int64, dt byte, key []byte, useLock bool) (collVerKeyInfo, error)
 //@   trusted reads the collection meta from the store
 //@   ensures result1 == nil ==> result0.OldHeader != nil && (result0.OldHeader.Ver == 0 || result0.OldHeader.Ver == 1) && smallTK(result0.Table, result0.VerKey)
-//@   ensures result1 == nil && dt == SetType ==> (len(result0.OldHeader.UserData) == 0 || len(result0.OldHeader.UserData) >= 8) && setSize(result0.OldHeader.UserData) >= 0 && setSize(result0.OldHeader.UserData) < 4611686018427387904
+//@   ensures result1 == nil && (dt == SetType || dt == ZSetType) ==> (len(result0.OldHeader.UserData) == 0 || len(result0.OldHeader.UserData) >= 8) && setSize(result0.OldHeader.UserData) >= 0 && setSize(result0.OldHeader.UserData) < 4611686018427387904
 //@   ensures result1 == nil && dt == HashType ==> (len(result0.OldHeader.UserData) == 0 || len(result0.OldHeader.UserData) == 8) && storedSize(result0.OldHeader.UserData) >= 0 && storedSize(result0.OldHeader.UserData) < 4611686018427387904
 //@   ensures result1 != errTooMuchBatchSize
 
@@ -684,7 +698,7 @@ package rockredis
 //@   ensures result1 != nil ==> ghost(wbputs, wb) == old(ghost(wbputs, wb)) && ghost(wbdels, wb) == old(ghost(wbdels, wb))
 //@   ghostset ghost(sizedelta, db) := delta
 //@   ghostset ghost(newsize, db) := result0
-//@   modifies oldh.UserData, ghost(wbputs, wb), ghost(wbdels, wb), ghost(sizedelta, db), ghost(newsize, db)
+//@   modifies oldh.UserData, ghost(wbputs, wb), ghost(wbdels, wb), ghost(sizedelta, db), ghost(newsize, db), ghost(wbver, wb)
 
 // SADD: the reply and the size delta are the number of members the store did not have, each buffered once;
 // the batch is cleared on every path
@@ -695,7 +709,7 @@ package rockredis
 //@   ensures result1 == nil ==> ghost(commits, db.rockEng) == old(ghost(commits, db.rockEng)) + 1
 //@   ensures len(args) > MAX_BATCH_NUM ==> result1 == errTooMuchBatchSize && ghost(commits, db.rockEng) == old(ghost(commits, db.rockEng))
 //@   ensures ghost(wbputs, db.wb) == 0 && ghost(wbdels, db.wb) == 0
-//@   modifies ghost(wbputs, _), ghost(wbdels, _), ghost(commits, _), ghost(cputs, _), ghost(cdels, _), ghost(misses, db), ghost(hits, db), ghost(sizedelta, db), ghost(newsize, db), ghost(tblcnt, db), alloftype(headerMetaValue)
+//@   modifies ghost(wbputs, _), ghost(wbdels, _), ghost(commits, _), ghost(cputs, _), ghost(cdels, _), ghost(misses, db), ghost(hits, db), ghost(sizedelta, db), ghost(newsize, db), ghost(tblcnt, db), alloftype(headerMetaValue), ghost(wbver, _)
 //@   loop 1
 //@   invariant 0 <= i && i <= len(args) && num == ghost(misses, db) - old(ghost(misses, db)) && num >= 0 && num <= i && ghost(wbputs, wb) == num && ghost(wbdels, wb) == 0
 //@   invariant (len(oldh.UserData) == 0 || len(oldh.UserData) >= 8) && setSize(oldh.UserData) >= 0 && setSize(oldh.UserData) < 4611686018427387904
@@ -708,7 +722,7 @@ package rockredis
 //@   ensures len(args) == 0 ==> result0 == 0 && result1 == nil && ghost(commits, db.rockEng) == old(ghost(commits, db.rockEng))
 //@   ensures len(args) > MAX_BATCH_NUM ==> result1 == errTooMuchBatchSize && ghost(commits, db.rockEng) == old(ghost(commits, db.rockEng))
 //@   ensures ghost(wbputs, db.wb) == 0 && ghost(wbdels, db.wb) == 0
-//@   modifies ghost(wbputs, _), ghost(wbdels, _), ghost(commits, _), ghost(cputs, _), ghost(cdels, _), ghost(misses, db), ghost(hits, db), ghost(sizedelta, db), ghost(newsize, db), ghost(tblcnt, db), ghost(expdels, _), alloftype(headerMetaValue)
+//@   modifies ghost(wbputs, _), ghost(wbdels, _), ghost(commits, _), ghost(cputs, _), ghost(cdels, _), ghost(misses, db), ghost(hits, db), ghost(sizedelta, db), ghost(newsize, db), ghost(tblcnt, db), ghost(expdels, _), alloftype(headerMetaValue), ghost(wbver, _)
 //@   loop 1
 //@   invariant 0 <= i && i <= len(args) && num == ghost(hits, db) - old(ghost(hits, db)) && num >= 0 && num <= i && ghost(wbdels, wb) == num && ghost(wbputs, wb) == 0
 //@   invariant (len(oldh.UserData) == 0 || len(oldh.UserData) >= 8) && setSize(oldh.UserData) >= 0 && setSize(oldh.UserData) < 4611686018427387904
@@ -720,7 +734,7 @@ package rockredis
 //@   ensures len(args) == 0 ==> result0 == 0 && result1 == nil
 //@   ensures result1 == errTooMuchBatchSize || len(args) == 0 ==> ghost(wbputs, db.wb) == old(ghost(wbputs, db.wb)) && ghost(wbdels, db.wb) == old(ghost(wbdels, db.wb)) && ghost(commits, db.rockEng) == old(ghost(commits, db.rockEng))
 //@   ensures len(args) > MAX_BATCH_NUM ==> result1 == errTooMuchBatchSize
-//@   modifies ghost(wbputs, _), ghost(wbdels, _), ghost(commits, _), ghost(cputs, _), ghost(cdels, _), ghost(misses, db), ghost(hits, db), ghost(sizedelta, db), ghost(newsize, db), ghost(tblcnt, db), ghost(expdels, _), alloftype(headerMetaValue)
+//@   modifies ghost(wbputs, _), ghost(wbdels, _), ghost(commits, _), ghost(cputs, _), ghost(cdels, _), ghost(misses, db), ghost(hits, db), ghost(sizedelta, db), ghost(newsize, db), ghost(tblcnt, db), ghost(expdels, _), alloftype(headerMetaValue), ghost(wbver, _)
 //@   loop 1
 //@   invariant 0 <= i && i <= len(args) && num == ghost(hits, db) - old(ghost(hits, db)) && num >= 0 && num <= i
 //@   invariant (len(oldh.UserData) == 0 || len(oldh.UserData) == 8) && storedSize(oldh.UserData) >= 0 && storedSize(oldh.UserData) < 4611686018427387904
@@ -739,3 +753,86 @@ package rockredis
 //@   requires db != nil && db.wb != nil && db.indexMgr != nil
 //@   ensures result0 != nil && !result1 ==> ghost(wbputs, db.wb) == old(ghost(wbputs, db.wb)) && ghost(wbdels, db.wb) == old(ghost(wbdels, db.wb))
 //@   modifies *
+
+
+//@ property C08 C09
+// ---- sorted sets: two indexes per member (member -> score, score+member -> ()) ----
+//@ spec zsKid(table []byte, key []byte, member []byte, score float64) int
+//@ func zEncodeScoreKey(stopKey bool, stopMember bool, table []byte, key []byte, member []byte, score float64) []byte
+//@   trusted order-preserving float codec (not verified: floating point)
+//@   ensures fresh(result)
+//@   defines !stopKey && !stopMember ==> kid(result) == zsKid(table, key, member, score)
+//@ func Float64(v []byte, err error) (float64, error)
+//@   trusted float codec
+//@   ensures err != nil ==> result1 == err
+//@   ensures result1 != errTooMuchBatchSize || err == errTooMuchBatchSize
+//@ func PutFloat64(v float64) []byte
+//@   trusted float codec
+//@   ensures fresh(result) && len(result) == 8
+
+// ZADD of one member: the member key and the score key of the NEW score are what the batch holds for them at the
+// end (a stale score key is deleted before, never after, the new one is buffered); an unchanged score buffers nothing
+//@ func (db *RockDB) zSetItem(table []byte, rk []byte, score float64, member []byte, wb engine.WriteBatch) (int64, error)
+//@   requires db != nil && wb != nil && smallTK(table, rk)
+//@   ensures result1 == nil ==> (result0 == 0 || result0 == 1)
+//@   ensures result1 == nil ==> ghost(misses, db) == old(ghost(misses, db)) + ite(result0 == 0, 1, 0) && ghost(hits, db) == old(ghost(hits, db)) + ite(result0 == 1, 1, 0)
+//@   ensures result1 == nil && ghost(wbver, wb) != old(ghost(wbver, wb)) ==> bst(wb, ghost(wbver, wb), zmKid(table, rk, member)) == 1 && bst(wb, ghost(wbver, wb), zsKid(table, rk, member, score)) == 1
+//@   ensures result1 == nil && ghost(wbver, wb) == old(ghost(wbver, wb)) ==> result0 == 1
+//@   ensures result1 == nil && result0 == 0 ==> ghost(wbver, wb) != old(ghost(wbver, wb))
+//@   ensures result1 != errTooMuchBatchSize
+//@   modifies ghost(misses, db), ghost(hits, db), ghost(wbputs, wb), ghost(wbdels, wb), ghost(wbver, wb)
+//@ func (db *RockDB) zDelItem(table, rk, member []byte, wb engine.WriteBatch) (int64, error)
+//@   requires db != nil && wb != nil && smallTK(table, rk)
+//@   ensures result1 == nil ==> (result0 == 0 || result0 == 1)
+//@   ensures result1 == nil ==> ghost(misses, db) == old(ghost(misses, db)) + ite(result0 == 0, 1, 0) && ghost(hits, db) == old(ghost(hits, db)) + ite(result0 == 1, 1, 0)
+//@   ensures result1 == nil && result0 == 1 ==> bst(wb, ghost(wbver, wb), zmKid(table, rk, member)) == 2 && ghost(wbdels, wb) == old(ghost(wbdels, wb)) + 2
+//@   ensures result1 == nil && result0 == 0 ==> ghost(wbver, wb) == old(ghost(wbver, wb)) && ghost(wbdels, wb) == old(ghost(wbdels, wb))
+//@   ensures result1 != errTooMuchBatchSize
+//@   modifies ghost(misses, db), ghost(hits, db), ghost(wbdels, wb), ghost(wbver, wb)
+
+// zset meta: [size be64][modify time be64]
+//@ func parseZMetaSize(meta []byte) (int64, error)
+//@   ensures result1 == nil <==> (len(meta) == 0 || len(meta) >= 8)
+//@   ensures result1 == nil ==> result0 == setSize(meta)
+//@   ensures result1 != errTooMuchBatchSize
+//@ func encodeZMetaData(size int64, ts int64, oldh *headerMetaValue) []byte
+//@   trusted byte layout of the zset meta value
+//@   requires oldh != nil
+//@   ensures fresh(result)
+//@   modifies oldh.UserData
+//@ func (db *RockDB) zIncrSize(ts int64, key []byte, oldh *headerMetaValue, delta int64, wb engine.WriteBatch) (int64, error)
+//@   requires db != nil && oldh != nil && (oldh.Ver == 0 || oldh.Ver == 1) && delta > -4611686018427387904 && delta < 4611686018427387904
+//@   requires len(oldh.UserData) >= 8 ==> setSize(oldh.UserData) > -4611686018427387904 && setSize(oldh.UserData) < 4611686018427387904
+//@   ensures result1 == nil <==> (len(old(oldh.UserData)) == 0 || len(old(oldh.UserData)) >= 8)
+//@   ensures result1 != errTooMuchBatchSize
+//@   ensures result1 == nil ==> result0 == max(old(setSize(oldh.UserData)) + delta, 0)
+//@   ensures result1 == nil && result0 == 0 ==> ghost(wbdels, wb) == old(ghost(wbdels, wb)) + 1 && ghost(wbputs, wb) == old(ghost(wbputs, wb))
+//@   ensures result1 == nil && result0 > 0 ==> ghost(wbputs, wb) == old(ghost(wbputs, wb)) + 1 && ghost(wbdels, wb) == old(ghost(wbdels, wb))
+//@   ensures result1 != nil ==> ghost(wbputs, wb) == old(ghost(wbputs, wb)) && ghost(wbdels, wb) == old(ghost(wbdels, wb))
+//@   ghostset ghost(sizedelta, db) := delta
+//@   ghostset ghost(newsize, db) := result0
+//@   modifies oldh.UserData, ghost(wbputs, wb), ghost(wbdels, wb), ghost(sizedelta, db), ghost(newsize, db), ghost(wbver, wb)
+
+// ZADD: reply and size growth are the number of members the store did not have; ZREM: the number it had
+//@ func (db *RockDB) ZAdd(ts int64, key []byte, args ...common.ScorePair) (int64, error)
+//@   requires db != nil && db.wb != nil && ghost(wbputs, db.wb) == 0 && ghost(wbdels, db.wb) == 0
+//@   ensures result1 == nil && len(args) > 0 ==> result0 == ghost(misses, db) - old(ghost(misses, db)) && ghost(sizedelta, db) == result0
+//@   ensures result1 == nil && len(args) > 0 ==> ghost(commits, db.rockEng) == old(ghost(commits, db.rockEng)) + 1
+//@   ensures len(args) == 0 ==> result0 == 0 && result1 == nil && ghost(commits, db.rockEng) == old(ghost(commits, db.rockEng))
+//@   ensures len(args) > MAX_BATCH_NUM ==> result1 == errTooMuchBatchSize && ghost(commits, db.rockEng) == old(ghost(commits, db.rockEng))
+//@   ensures ghost(wbputs, db.wb) == 0 && ghost(wbdels, db.wb) == 0
+//@   modifies ghost(wbputs, _), ghost(wbdels, _), ghost(wbver, _), ghost(commits, _), ghost(cputs, _), ghost(cdels, _), ghost(misses, db), ghost(hits, db), ghost(sizedelta, db), ghost(newsize, db), ghost(tblcnt, db), alloftype(headerMetaValue)
+//@   loop 1
+//@   invariant 0 <= i && i <= len(args) && num == ghost(misses, db) - old(ghost(misses, db)) && num >= 0 && num <= i
+//@   invariant (len(keyInfo.OldHeader.UserData) == 0 || len(keyInfo.OldHeader.UserData) >= 8) && setSize(keyInfo.OldHeader.UserData) >= 0 && setSize(keyInfo.OldHeader.UserData) < 4611686018427387904
+//@ func (db *RockDB) ZRem(ts int64, key []byte, members ...[]byte) (int64, error)
+//@   requires db != nil && db.wb != nil && ghost(wbputs, db.wb) == 0 && ghost(wbdels, db.wb) == 0
+//@   ensures result1 == nil && len(members) > 0 ==> result0 == ghost(hits, db) - old(ghost(hits, db)) && ghost(sizedelta, db) == -result0
+//@   ensures result1 == nil && len(members) > 0 ==> ghost(commits, db.rockEng) == old(ghost(commits, db.rockEng)) + 1 && ghost(cdels, db.rockEng) >= 2 * result0
+//@   ensures len(members) == 0 ==> result0 == 0 && result1 == nil && ghost(commits, db.rockEng) == old(ghost(commits, db.rockEng))
+//@   ensures len(members) > MAX_BATCH_NUM ==> result1 == errTooMuchBatchSize && ghost(commits, db.rockEng) == old(ghost(commits, db.rockEng))
+//@   ensures ghost(wbputs, db.wb) == 0 && ghost(wbdels, db.wb) == 0
+//@   modifies ghost(wbputs, _), ghost(wbdels, _), ghost(wbver, _), ghost(commits, _), ghost(cputs, _), ghost(cdels, _), ghost(misses, db), ghost(hits, db), ghost(sizedelta, db), ghost(newsize, db), ghost(tblcnt, db), ghost(expdels, _), alloftype(headerMetaValue)
+//@   loop 1
+//@   invariant 0 <= i && i <= len(members) && num == ghost(hits, db) - old(ghost(hits, db)) && num >= 0 && num <= i && ghost(wbdels, wb) == 2 * num && ghost(wbputs, wb) == 0
+//@   invariant (len(keyInfo.OldHeader.UserData) == 0 || len(keyInfo.OldHeader.UserData) >= 8) && setSize(keyInfo.OldHeader.UserData) >= 0 && setSize(keyInfo.OldHeader.UserData) < 4611686018427387904
